@@ -13,8 +13,43 @@ known findings."""
 import json
 import random
 
+import geom
 import interp
 import vlib
+
+
+def unsat_document(c):
+    """a document whose only flaw is one reference that can never be satisfied (None: the
+    combination does not denote such a reference)"""
+    t, v, f = c["target"], c["via"], c["form"]
+    ref = "#t" if v == "id" else "^"
+    tgt = {"missing": "", "empty-g": '<g id="t"/>', "style-g": '<g id="t"><style>.k { fill: red; }</style></g>',
+           "defs-only-g": '<g id="t"><defs><rect id="inner" wh="2"/></defs></g>', "self": None, "mutual": None,
+           "point-size": '<point id="t" xy="3 3"/>'}[t]
+    if t == "missing" and v == "prev":
+        tgt = ""                      # "^" as the very first element: there is no previous element
+    if t == "point-size":
+        return None                   # (a point has a position and a size of zero: every use is satisfiable)
+    if t in ("self", "mutual") and v == "prev":
+        return None
+    use = {"dir": f'<rect id="s" xy="{ref}|h 2" wh="2"/>', "loc": f'<rect id="s" xy="{ref}@br 1 1" wh="2"/>',
+           "loc-xy2": f'<rect id="s" xy2="{ref}@tl" wh="2"/>', "loc-cxy": f'<circle id="s" cxy="{ref}@c" r="2"/>',
+           "scalar-x": f'<rect id="s" x="{ref}~x2" y="0" wh="2"/>', "scalar-x2": f'<rect id="s" x2="{ref}@r 1" y="0" wh="2"/>',
+           "size": f'<rect id="s" xy="0 0" wh="{ref} 50%"/>', "line-xy1": f'<line id="s" xy1="{ref}@r" xy2="9 9"/>',
+           "surround": f'<rect id="s" surround="{ref}" margin="1"/>', "inside": f'<circle id="s" inside="{ref}"/>',
+           "connector": f'<line id="s" start="{ref}" end="#ok"/>', "points": f'<polyline id="s" points="{ref}@tl 5 5"/>'}[f]
+    if t == "self":
+        use = use.replace("#t", "#s")
+        tgt = ""
+    if t == "mutual":
+        tgt = '<rect id="t" xy="#s|v 1" wh="2"/>'
+    if t == "point-size" and v == "prev":
+        pass
+    ok = '<rect id="ok" xy="20 20" wh="2"/>'
+    if t == "missing" and v == "prev":
+        return f"<svg>{use}{ok}</svg>"      # "^" in the very first element: there is no previous element
+    # the target directly before the referring element, so that "^" means it
+    return f"<svg>{ok}{tgt}{use}</svg>"
 
 
 def run(rep, tier, seed):
@@ -28,6 +63,25 @@ def run(rep, tier, seed):
                            MaxNodes=7, MaxDepth=2)
     interp.negative_control(rep, "order", "StaleLookup", {"ResultIsIdeal"}, MaxNodes=3)
     interp.negative_control(rep, "order", "AtomicGroupRetry", {"ResultIsIdeal"}, MaxNodes=4)
+    # references that can never be satisfied, in every way of writing and using them
+    ucs = geom.run_geom_family(rep, "unsat", tier, [])
+    ucases = []
+    for j, c in enumerate(ucs):
+        xml = unsat_document(c)
+        if xml:
+            ucases.append({"k": f"c10u-{j}", "xml": xml, "case": c, "key": xml})
+
+    def ucheck(c, resp):
+        if resp["status"] != "err":
+            cs = c["case"]
+            # "^" with nothing before it: the form of use does not matter (one listed finding)
+            sig = (f"unsat:{cs['target']}:{cs['via']}:{resp['status']}" if (cs["target"], cs["via"]) == ("missing", "prev")
+                   else f"unsat:{cs['target']}:{cs['via']}:{cs['form']}:{resp['status']}")
+            return (sig,
+                    "a reference that can never be satisfied did not make the transform fail")
+        return None
+    geom.run_and_compare(rep, ucases, ucheck, "c10u")
+    rep.notes["unsatisfiable_cases"] = len(ucases)
     rep.notes["rule"] = "every document of the order family within MaxNodes: all reference graphs x all sibling orders x size spellings"
     rep.notes["exhaustive"] = True
 
